@@ -54,7 +54,7 @@ static void build_list(int fam, int n, int idx) {
 static void s_name(int ev, char *buf, size_t cap) {
     if (ev < EMIT_BASE) { pev_name(&SV[ev], buf, cap); return; }
     int fam, seqi, n, idx; emit_decode(ev, &fam, &seqi, &n, &idx);
-    static const char *fn[] = {"tuple", "all-Probe", "all-Train", "alternating", "position-sweep", "over-declared", "sequence-number-sweep", "pause-and-address-sweep"};
+    static const char *fn[] = {"tuple", "all-Probe", "all-Train", "alternating", "position-sweep", "over-declared", "sequence-number-sweep", "pause-and-address-sweep", "not-addressed-to-us"};
     if (fam == 6) { snprintf(buf, cap, "Emit(from active mapper,seq=0x%04x,family=%s,n=1)", seq_of(ev), fn[fam]); return; }
     snprintf(buf, cap, "Emit(from active mapper,seq=0x%04x,family=%s,n=%d,idx=%d)", SEQS[seqi], fn[fam], n, idx);
 }
@@ -97,15 +97,21 @@ static void oracle_emit(int code, uint16_t seq) {
     if (ti != W.ntrace) vf_violation("emit:extra-port-calls", "%s: %u port calls after the ACK", nm, W.ntrace - ti);
 }
 
+/* family 8: an Emit from the active mapper that is not addressed to us at the LLTD level (idx: real destination broadcast /
+ * another station / zero, Ethernet destination ours or broadcast) - whatever the responder transmits for it carries ITS OWN
+ * address as real source */
+static const uint8_t F8_RDST[3] = {ST_BC, ST_PEER, ST_ZERO};
 static void do_emit(int code) {
     int fam, seqi, n, idx; emit_decode(code, &fam, &seqi, &n, &idx);
-    build_list(fam, n, idx);
+    build_list(fam == 8 ? 0 : fam, fam == 8 ? 1 : n, fam == 8 ? 0 : idx);
     static uint8_t buf[VF_MAXMTU + 64];
-    size_t len = fb_emit(buf, W.iface[0].mac, pev_addr(M6.apparent, 0), W.iface[0].mac, pev_addr(M6.arb.v, 0), 0, seq_of(code), (uint16_t)declared, DL, DLn);
+    const uint8_t *edst = W.iface[0].mac, *rdst = W.iface[0].mac;
+    if (fam == 8) { rdst = vf_station[F8_RDST[idx % 3]]; if (idx >= 3) edst = vf_station[ST_BC]; }
+    size_t len = fb_emit(buf, edst, pev_addr(M6.apparent, 0), rdst, pev_addr(M6.arb.v, 0), 0, seq_of(code), (uint16_t)declared, DL, DLn);
     vf_iface *fi = &W.iface[0]; memset(fi->recv, 0, fi->recv_prev_len > len ? fi->recv_prev_len : len);
     vf_trace_clear();
     drv_linux_deliver(0, buf, len);
-    oracle_emit(code, seq_of(code));
+    if (!(fam == 8 && W.ntrace == 0)) oracle_emit(code, seq_of(code));      /* an Emit for somebody else may be ignored; if it is executed, it is executed as ours */
     if (fam != 6 || (idx & 0x3FF) == 0) vf_outcome(vf_trace_hash());
 }
 
@@ -141,6 +147,7 @@ static void run_family_here(void) {
         for (int k = 0; k < 3; k++) { if (ns[k] > 200 && !vf_thorough() && k == 0) continue; for (int i = 0; i < ns[k]; i++) RUN(emit_code(4, seqi, ns[k], i)); }
         for (int o = 0; o < 5; o++) RUN(emit_code(5, seqi, F, o));
     }
+    if (heavy) for (int k = 0; k < 6; k++) RUN(emit_code(8, 1, 1, k));      /* real destination broadcast / another station / zero x Ethernet destination ours / broadcast */
     if (heavy) for (int pr = 0; pr < 9; pr++) for (int pz = 0; pz < 256; pz++) RUN(emit_code(7, 1, pr, pz));      /* every pause value x 9 address pairs */
     if (heavy) for (int v = 1; v < 65536; v++) RUN(emit_code(6, 0, v / 8192, v % 8192));      /* every non-zero sequence number, once per (mapper, apparent address) class */
 #undef RUN
@@ -166,7 +173,7 @@ static void build_state_alphabet(void) {
 
 /* =================================================================== C10 */
 /* interface 0 = responder A, interface 1 = responder B, one core instance serves both (as in the daemons) */
-static struct m10 { uint8_t qn; uint8_t q[3][32]; uint8_t delivered; } M10;   /* delivered: bit (srcidx*2+kind) */
+static struct m10 { uint8_t qn; uint8_t q[3][32]; uint16_t delivered; } M10;   /* delivered: bit (srcidx*2+kind) */
 enum { X_DISC_A, X_DISC_A_BR, X_DISC_B, X_DELIVER, X_HELLO_B, X_PROBE_PEER_B, X_QUERY_B, X_QUERY_B_BR, X_RESET_B, X_OTHER_EMITTER_B, X_QRESET_B, X_EMIT0 };
 static int QCAP = 3;                    /* bound on the in-flight queue (quick tier: 2) */
 static int NEMIT; static struct { uint8_t n; uint8_t d[2]; } EM[512];     /* descriptor code: kind | pause<<1 | dstB<<2 | srcA<<3 | srcB<<4 (the mapper may choose ANY Ethernet source, also the observer's own address) */
@@ -177,7 +184,17 @@ static void dcode(int c, fb_desc *d) {
     d->type = (uint8_t)(c & 1); d->pause = (c & 2) ? 7 : 0;
     memcpy(d->dst, (c & 4) ? addrB() : vf_station[ST_PEER], 6);
     memcpy(d->src, (c & 16) ? addrB() : (c & 8) ? addrA() : vf_station[ST_S0], 6);
+    if (c & 32) d->src[0] ^= 0x02;      /* twins of S0: equal in all but the first / the second octet */
+    if (c & 64) d->src[1] ^= 0x01;
 }
+static const uint8_t *src_of_idx(int srcidx) {
+    static uint8_t tw[2][6];
+    if (srcidx == 1) return addrA();
+    if (srcidx == 2) return addrB();
+    if (srcidx >= 3) { memcpy(tw[srcidx - 3], vf_station[ST_S0], 6); if (srcidx == 3) tw[0][0] ^= 0x02; else tw[1][1] ^= 0x01; return tw[srcidx - 3]; }
+    return vf_station[ST_S0];
+}
+static const char *SRCNAME[5] = {"S0", "A", "B's own address", "S0 with the first octet changed", "S0 with the second octet changed"};
 static int towardsB(int ev) { int n = 0; for (int i = 0; i < EM[ev - X_EMIT0].n; i++) if (EM[ev - X_EMIT0].d[i] & 4) n++; return n; }
 
 static void x_name(int ev, char *buf, size_t cap) {
@@ -187,12 +204,12 @@ static void x_name(int ev, char *buf, size_t cap) {
     size_t o = (size_t)snprintf(buf, cap, "Emit(M1)->A[");
     for (int i = 0; i < EM[ev - X_EMIT0].n; i++) {
         int c = EM[ev - X_EMIT0].d[i];
-        o += (size_t)snprintf(buf + o, cap - o, "%s%s p%d %s>%s", i ? "; " : "", (c & 1) ? "Probe" : "Train", (c & 2) ? 7 : 0, (c & 16) ? "B" : (c & 8) ? "A" : "S0", (c & 4) ? "B" : "PEER");
+        o += (size_t)snprintf(buf + o, cap - o, "%s%s p%d %s>%s", i ? "; " : "", (c & 1) ? "Probe" : "Train", (c & 2) ? 7 : 0, (c & 32) ? "S0'" : (c & 64) ? "S0''" : (c & 16) ? "B" : (c & 8) ? "A" : "S0", (c & 4) ? "B" : "PEER");
     }
     snprintf(buf + o, cap - o, "]");
 }
 static int x_enabled(int ev) {
-    if (A.a == 3 && (ev == X_DISC_A_BR || ev == X_QUERY_B_BR || ev == X_HELLO_B || ev == X_PROBE_PEER_B || ev == X_OTHER_EMITTER_B)) return 0;
+    if (A.a >= 3 && (ev == X_DISC_A_BR || ev == X_QUERY_B_BR || ev == X_HELLO_B || ev == X_PROBE_PEER_B || ev == X_OTHER_EMITTER_B)) return 0;
     if (ev == X_DELIVER) return M10.qn > 0;
     if (ev >= X_EMIT0) return M10.qn + towardsB(ev) <= QCAP;
     return 1;
@@ -209,8 +226,9 @@ static void x_apply(int ev) {
             uint8_t fr[32]; memcpy(fr, M10.q[0], 32);
             memmove(M10.q[0], M10.q[1], 64); M10.qn--; memset(M10.q[M10.qn], 0, 32);
             deliver_to(1, fr, 32);
-            int srcidx = memcmp(fr + 6, addrA(), 6) == 0 ? 1 : memcmp(fr + 6, addrB(), 6) == 0 ? 2 : 0; int kind = fr[17] == 0x04 ? 1 : 0;
-            M10.delivered |= (uint8_t)(1u << (srcidx * 2 + kind));
+            int srcidx = 0; for (int k = 1; k < 5; k++) if (memcmp(fr + 6, src_of_idx(k), 6) == 0) srcidx = k;
+            int kind = fr[17] == 0x04 ? 1 : 0;
+            M10.delivered |= (uint16_t)(1u << (srcidx * 2 + kind));
             break; }
         case X_HELLO_B: len = fb_hello(f, vf_station[ST_PEER], 0, 0x3412, vf_station[ST_M1], vf_station[ST_M1]); deliver_to(1, f, len); break;
         case X_PROBE_PEER_B: fb_base(f, vf_station[ST_PEER], vf_station[ST_S1], 0, 0x04, vf_station[ST_PEER], vf_station[ST_S1], 0); deliver_to(1, f, 32); break;
@@ -221,15 +239,15 @@ static void x_apply(int ev) {
             const vf_trec *t = tr_send(0);
             if (tr_sends() != 1 || t->len < 34 || tr_bytes(t)[17] != 0x07) { vf_violation("peer:query-not-answered", "B did not answer the Query with one QueryResp"); M10.delivered = 0; break; }
             unsigned cnt = (unsigned)(((tr_bytes(t)[32] << 8) | tr_bytes(t)[33]) & 0x3FFF);
-            for (int srcidx = 0; srcidx < 3; srcidx++) {
+            for (int srcidx = 0; srcidx < 5; srcidx++) {
                 if (!(M10.delivered & (3u << (srcidx * 2)))) continue;
-                const uint8_t *src = srcidx == 2 ? addrB() : srcidx ? addrA() : vf_station[ST_S0];
+                const uint8_t *src = src_of_idx(srcidx);
                 int found = 0;
                 for (unsigned i = 0; i < cnt && 34 + 20 * (i + 1) <= t->len; i++) {
                     const uint8_t *d = tr_bytes(t) + 34 + 20 * i;
                     if (!memcmp(d + 2, addrA(), 6) && !memcmp(d + 8, src, 6) && !memcmp(d + 14, addrB(), 6)) found = 1;
                 }
-                if (!found) vf_violation("peer-does-not-report-emitted-probe", "responder A emitted a %s towards B (Ethernet source %s), it was delivered unmodified to B, but B's QueryResp (%u descriptors) has no entry with A as real source for it", (M10.delivered & (2u << (srcidx * 2))) ? "Probe" : "Train", srcidx == 2 ? "B's own address" : srcidx ? "A" : "S0", cnt);
+                if (!found) vf_violation("peer-does-not-report-emitted-probe", "responder A emitted a %s towards B (Ethernet source %s), it was delivered unmodified to B, but B's QueryResp (%u descriptors) has no entry with A as real source for it", (M10.delivered & (2u << (srcidx * 2))) ? "Probe" : "Train", SRCNAME[srcidx], cnt);
             }
             M10.delivered = 0; break; }
         case X_OTHER_EMITTER_B:     /* unrelated traffic: a third responder emits towards B with the same spoofed Ethernet source */
@@ -347,6 +365,12 @@ int main(int argc, char **argv) {
             for (int a = 0; a < 4; a++) { EM[NEMIT].n = 1; EM[NEMIT].d[0] = (uint8_t)(16 | 4 | a); NEMIT++; }
             for (int b = 0; b < 4; b++) { EM[NEMIT].n = 1; EM[NEMIT].d[0] = others[b]; NEMIT++; }
             for (int a = 0; a < 2; a++) for (int b = 0; b < 6; b++) { EM[NEMIT].n = 2; EM[NEMIT].d[0] = (uint8_t)(16 | 4 | a); EM[NEMIT].d[1] = others[b]; NEMIT++; }
+        }
+        if (A.a == 4) {      /* mapper-chosen sources that differ from each other in one octet only (S0, S0', S0''), towards B, singles and pairs */
+            static const uint8_t tw[6] = {4, 5, 32 | 4, 32 | 5, 64 | 4, 64 | 5};
+            NEMIT = 0;
+            for (int a = 0; a < 6; a++) { EM[NEMIT].n = 1; EM[NEMIT].d[0] = tw[a]; NEMIT++; }
+            for (int a = 0; a < 6; a++) for (int b = 0; b < 6; b++) { if (a / 2 == b / 2) continue; EM[NEMIT].n = 2; EM[NEMIT].d[0] = tw[a]; EM[NEMIT].d[1] = tw[b]; NEMIT++; }
         }
         QCAP = vf_thorough() ? 3 : 2;
         e1_cfg cfg = { .nev = X_EMIT0 + NEMIT, .ev_name = x_name, .apply = x_apply, .enabled = x_enabled, .root_setup = x_root, .model = &M10, .model_size = sizeof M10,
